@@ -606,7 +606,11 @@ func fileLoadExact(c *Ctx, id string) {
 	fn := w.Method("metadata", "fileMetadata", "Load")
 	c.need(fn != nil, id, "metadata.fileMetadata.Load")
 	h := &Harness{Fn: fn, Choices: map[string]int{"read": 3}, Quiet: quietLog, MaxSteps: 4000,
-		Args: map[string]func(st *State) AV{fn.Params[1].Name(): func(st *State) AV { return avSlice{cells: []*cell{}} }},
+		Args: map[string]func(st *State) AV{fn.Params[1].Name(): func(st *State) AV {
+			// two requested vBuckets (symbolic ids)
+			t := types.Typ[types.Uint16]
+			return avSlice{cells: []*cell{{typ: t, sym: "vbIds[0]"}, {typ: t, sym: "vbIds[1]"}}}
+		}},
 		Oracle: func(st *State, name string, args []AV, res *types.Tuple) ([]AV, bool) {
 			switch {
 			case name == "os.ReadFile":
@@ -636,14 +640,32 @@ func fileLoadExact(c *Ctx, id string) {
 		}
 		errV, _ := out.Ret[2].(avIface)
 		existV, _ := out.Ret[1].(avBool)
+		var stores []Effect
+		for _, e := range out.Trace {
+			if strings.HasSuffix(e.Name, ".Store") && len(e.Args) == 3 {
+				stores = append(stores, e)
+			}
+		}
 		switch st.C("read") {
 		case 0:
 			if !errV.isNil || !existV.b {
 				return fmt.Sprintf("file read: returns exist=%v err=%s, expected exist=true, nil", existV.b, avString(out.Ret[2]))
 			}
+			// what the file holds is what is returned, under the keys it was written with: no re-keying, no filtering
+			if len(stores) != 0 {
+				return fmt.Sprintf("the decoded file is re-filed entry by entry (%s …): a document can end up under another vBucket's id", stores[0].String())
+			}
 		case 1:
 			if !errV.isNil || existV.b {
 				return fmt.Sprintf("file does not exist: returns exist=%v err=%s, expected exist=false, nil", existV.b, avString(out.Ret[2]))
+			}
+			// an empty document for each requested vBucket, under its own id
+			seen := map[string]bool{}
+			for _, e := range stores {
+				seen[avString(e.Args[1])] = true
+			}
+			if len(stores) != 2 || !seen["?int vbIds[0]"] || !seen["?int vbIds[1]"] {
+				return fmt.Sprintf("no file: %d empty documents filed under %v (expected one per requested vBucket, under its own id)", len(stores), seen)
 			}
 		default:
 			if errV.isNil {
@@ -651,7 +673,7 @@ func fileLoadExact(c *Ctx, id string) {
 			}
 		}
 		return ""
-	}, "read ok → exist, nil; ErrNotExist → ¬exist, nil; other error → error")
+	}, "read ok → the decoded file as it is, exist, nil; ErrNotExist → an empty document per requested vBucket under its own id, ¬exist, nil; other error → error")
 }
 
 // observeCallbackExact (C07): the callback that applies one copy's persistence report, evaluated exhaustively over
